@@ -173,7 +173,7 @@ def probe(binary, hooks, cfg, orig_port, logfile):
     cfgp = os.path.join(d, "cfg.toml")
     with open(cfgp, "w") as f:
         f.write(text)
-    env = dict(os.environ, RUST_BACKTRACE="0")
+    env = sut.cov_env(dict(os.environ, RUST_BACKTRACE="0"))
     env.pop("RUST_LOG", None)
     p = subprocess.Popen([binary, "-c", cfgp], cwd=d, env=env, stdin=subprocess.DEVNULL,
                          stdout=subprocess.PIPE, stderr=subprocess.STDOUT)
@@ -430,7 +430,7 @@ def run_validation_case(args):
     cfgp = os.path.join(d, "c.toml")
     with open(cfgp, "w") as f:
         f.write(dump_toml(cfg))
-    env = dict(os.environ, RUST_BACKTRACE="0")
+    env = sut.cov_env(dict(os.environ, RUST_BACKTRACE="0"))
     p = subprocess.Popen([binary, "-c", cfgp] + cli, cwd=d, env=env, stdin=subprocess.DEVNULL,
                          stdout=subprocess.PIPE, stderr=subprocess.STDOUT)
     try:
@@ -474,12 +474,18 @@ def hash_wire(binary, hooks, seed, n):
         pw = "".join(rng.choice(atoms) for _ in range(rng.randrange(1, 6)))
         if pw.startswith("-"):
             pw = "p" + pw
-        p = subprocess.run([binary, "-g", "-P", pw], capture_output=True, text=True, timeout=30)
+        if i % 3 == 1:
+            # "for every password string": blanks at the end belong to the password
+            pw += rng.choice([" ", "  ", "\t", " \t", " x "])
+        p = subprocess.run([binary, "-g", "-P", pw], capture_output=True, text=True, timeout=30,
+                           env=sut.cov_env(dict(os.environ)))
         if "Password Hash: " not in p.stdout:
             res.append(dict(pw=pw, problem="-g printed no hash: %r %r" % (p.stdout, p.stderr[-200:])))
             continue
         h = p.stdout.split("Password Hash: ")[1].strip()
-        others = [pw + "x", pw[:-1] or "q", pw.swapcase() if pw.swapcase() != pw else pw + " ", " " + pw]
+        others = [pw + "x", pw[:-1] or "q", pw.swapcase() if pw.swapcase() != pw else pw + " ", " " + pw,
+                  pw.rstrip() or "q", pw + " ", pw.strip() or "q"]
+        others = [x for k, x in enumerate(others) if x not in others[:k]]
         with sut.Server(binary, dict(password=h, operators=[{"name": "root", "password": h}]), hooks=hooks) as srv:
             def attempt(x):
                 c = wire.Client(srv.port, timeout=5.0)
@@ -517,7 +523,7 @@ def cli_overrides(binary, hooks):
     with open(cfgp, "w") as f:
         f.write(dump_toml(cfg))
     logf = os.path.join(d, "cli.log")
-    env = dict(os.environ, RUST_BACKTRACE="0")
+    env = sut.cov_env(dict(os.environ, RUST_BACKTRACE="0"))
     p = subprocess.Popen([binary, "-c", cfgp, "-n", "cli.name.test", "-N", "CliNet", "-p", str(port1), "-l", "127.0.0.1",
                           "-L", logf], cwd=d, env=env, stdin=subprocess.DEVNULL, stdout=subprocess.PIPE,
                          stderr=subprocess.STDOUT)
@@ -619,7 +625,7 @@ def cli_tls(tls_bin):
         f.write(dump_toml(cfg))
     cert = os.path.join(sut.REPO, "test_data", "cert.crt")
     key = os.path.join(sut.REPO, "test_data", "cert_key.crt")
-    env = dict(os.environ, RUST_BACKTRACE="0")
+    env = sut.cov_env(dict(os.environ, RUST_BACKTRACE="0"))
     p = subprocess.Popen([tls_bin, "-c", cfgp, "-C", cert, "-K", key], cwd=d, env=env, stdin=subprocess.DEVNULL,
                          stdout=subprocess.PIPE, stderr=subprocess.STDOUT)
     out = []
